@@ -193,7 +193,7 @@ PROPS = {
         streams=dict(quick=[("mt_module", "plain"), ("mt_module", "tsan"), ("ca_prog", "plain")],
                      thorough=[("mt_module", "plain"), ("mt_module", "tsan"), ("ca_prog", "plain")]),
         proved="(1) read-only threads: for every interleaving the shared memory is unchanged and every thread observes what it observes solo; (2) Gen obligation re-decided by the kernel on every run: the call-graph closure (indirect calls over-approximated) of every exported const MODULE*/const *_PRECOMP* entry point references no shared mutable global; (3) warm-up: a *_simple call after a completed call with the same key performs no write to its cache; (4) shared_caches_keyed_by_dimension_only: every convenience cache that is not thread-local is keyed by the dimension alone (kernel-decided on the extracted structure), which is what the warm-up protocol needs",
-        not_proved="real weak-memory interleavings, compiler reordering and the first-use race of the *_simple functions are runtime behaviour: exhibited by the ThreadSanitizer stream (16 threads, fresh and warmed-up), not by a theorem; extraction of the call graph / global references from the object files is trusted; SCOPE of obligation (2): static-storage objects only - a write through the const MODULE* / const *_PRECOMP* pointer into the heap object itself (lazily filled field, cast-away const) is excluded by no theorem, only by the TSan stream and the byte snapshots of C18; the q120 product kernels take a non-const precomp pointer and are roots since the extraction also accepts non-const *_precomp first parameters; mt_module exercises about 20 of the API roots",
+        not_proved="real weak-memory interleavings, compiler reordering and the first-use race of the *_simple functions are runtime behaviour: exhibited by the ThreadSanitizer stream (16 threads, fresh and warmed-up), not by a theorem; extraction of the call graph / global references from the object files is trusted; SCOPE of obligation (2): static-storage objects only - a write through the const MODULE* / const *_PRECOMP* pointer into the heap object itself (lazily filled field, cast-away const) is excluded by no theorem, only by the TSan stream and the byte snapshots of C18; the q120 product kernels take a non-const precomp pointer and are roots since the extraction also accepts non-const *_precomp first parameters; mt_module exercises the module-level entry points, the big-coefficient wrappers, prepare/apply, and every table-based kernel family (fftvec products, conversions, FFT/iFFT, q120 products and NTT) on shared objects, not every exported function",
         level_text="Lean 4 theorem over sequentially consistent interleavings + kernel-decided obligation on the call graph and global-reference sets extracted from the freshly built objects; TSan and per-thread-vs-solo bitwise streams tie it to the real code (partial: runtime memory model not modelled)",
         design_ref="DESIGN.md §5 C12",
         technique="Lean 4 proof (interleaving induction) + kernel-decided reachability over extracted call graph; TSan correspondence",
